@@ -82,7 +82,16 @@ def solve(puzzle, h, w, problem):
             sat, a = creek.solve_creek(h, w, grid(problem, h + 1, w + 1))
             return sat, arr_facts(a) if sat else []
         if puzzle == "heyawake":
-            sat, a = heyawake.solve_heyawake(h, w, rooms(problem[0]), list(problem[1]))
+            rs, cl = rooms(problem[0]), list(problem[1])
+            rects = []
+            for room, v in zip(rs, cl):
+                ys, xs = [y for y, _ in room], [x for _, x in room]
+                if len(room) == (max(ys) - min(ys) + 1) * (max(xs) - min(xs) + 1):
+                    rects.append((min(ys), min(xs), max(ys) + 1, max(xs) + 1, v))
+            if len(rects) == len(rs) and (sum(problem[0]) + len(rs)) % 2 == 0:
+                sat, a = heyawake.solve_heyawake(h, w, rects)     # the other documented form: a list of rectangles
+            else:
+                sat, a = heyawake.solve_heyawake(h, w, rs, cl)
             return sat, arr_facts(a) if sat else []
         if puzzle == "lits":
             sat, a = lits.solve_lits(h, w, rooms(problem[0]))
